@@ -15,6 +15,7 @@ sed -i "s|/repo/crates|$MT/repo/crates|g" $MT/verif/harness/vmon/Cargo.toml
 cd $MT/verif
 for id in "$@"; do
   ./check $id --tier ${TIER:-quick} ${LANE:+--lane $LANE} > $MT/try_$id.log 2>&1; rc=$?
+  mkdir -p /tmp/trials; cp $MT/try_$id.log /tmp/trials/$(basename $(dirname $(dirname $P)))-$(basename $(dirname $P))-$id.log
   echo "RESULT $(basename $(dirname $P))/$(basename $(dirname $(dirname $P))) $id exit=$rc $(grep -c '^VIOLATION' $MT/try_$id.log) violation line(s): $(grep -m2 'signature:' $MT/try_$id.log | tr '\n' ' ')"
 done
 git -C $MT/repo checkout -q -- .
